@@ -74,12 +74,40 @@ def ht_hash(pw: str) -> str:
     return "{SHA}" + base64.b64encode(hashlib.sha1(pw.encode("utf-8")).digest()).decode()
 
 
-def ht_check(pwhash: str, pw: str) -> bool:
-    """library part of HtpasswdFile.check_password for {SHA} entries"""
+B64BC = "./ABCDEFGHIJKLMNOPQRSTUVWXYZabcdefghijklmnopqrstuvwxyz0123456789"
+
+
+def bcrypt_hash(rng, pw: str) -> str:
+    """htpasswd bcrypt entry (cost 4) with a salt drawn from the case PRNG"""
+    import bcrypt
+    salt = "$2b$04$" + "".join(rng.pick(B64BC) for _ in range(21)) + rng.pick(".Oeu")
     try:
-        return pwhash[5:] == base64.b64encode(hashlib.sha1(pw.encode("utf-8")).digest()).decode("ascii")
-    except UnicodeEncodeError:
-        return False
+        return bcrypt.hashpw(pw.encode("utf-8")[:72], salt.encode()).decode()
+    except ValueError:
+        return bcrypt.hashpw(pw.encode("utf-8")[:72], bcrypt.gensalt(4)).decode()
+
+
+def ht_check(pwhash: str, pw: str):
+    """library part of HtpasswdFile.check_password: True / False, or None when the hash comparison raises"""
+    try:
+        if pwhash.startswith("{SHA}"):
+            return pwhash[5:] == base64.b64encode(hashlib.sha1(pw.encode("utf-8")).digest()).decode("ascii")
+        import bcrypt
+        return bcrypt.checkpw(pw.encode("utf-8"), pwhash.encode("utf-8"))
+    except Exception:
+        return None
+
+
+class RaisingValidator(proxyauth.Validator):
+    """fault injection: a validator whose __call__ raises for some inputs (an LDAP server error, a hashing library limit …)"""
+
+    def __init__(self, inner, bad):
+        self.inner, self.bad = inner, {tuple(x) for x in bad}
+
+    def __call__(self, username: str, password: str) -> bool:
+        if (username, password) in self.bad:
+            raise RuntimeError("validator backend failure (injected)")
+        return self.inner(username, password)
 
 
 def ht_lines(val):
@@ -109,6 +137,7 @@ def proxyauth_option(val):
 def val_accepts(val, u: str, p: str) -> bool:
     """reference validator (what the configured credentials mean) — used by the oracle only"""
     k = val["k"]
+    if [u, p] in val.get("raise_on", []): return False        # a validator that raises has not accepted anything
     if k == "any": return True
     if k == "single": return (u, p) == (val["u"], val["p"])
     if k == "ht":
@@ -322,6 +351,19 @@ class Conn:
         return cnew, heads, raw
 
 
+def quiet_logging():
+    """every test master installs a log handler bound to its own (soon closed) event loop; an addon error logged by
+    addonmanager.safecall would then raise from a stale handler and abort the hook chain — drop those handlers"""
+    import logging
+    from mitmproxy.log import MitmLogHandler
+    root = logging.getLogger()
+    for h in list(root.handlers):
+        if isinstance(h, MitmLogHandler): root.removeHandler(h)
+    lg = logging.getLogger("mitmproxy")
+    if not any(isinstance(h, logging.NullHandler) for h in lg.handlers):
+        lg.addHandler(logging.NullHandler()); lg.propagate = False      # safecall's error reports are not observables
+
+
 class Check(PropertyCheck):
     prop = "C20"
     design_ref = "§5 C20"
@@ -337,7 +379,9 @@ class Check(PropertyCheck):
                   "b2a_base64, str.encode, mkauth (b64_roundtrip, mkauth_parses, standard_credential_wellformed, "
                   "standard_credentials_accepted_on_every_path: `Basic base64(utf8(u:p))` is accepted on every HTTP path with no "
                   "hypothesis on the token, passwords with ':' included), and the 401/407 page (auth_response_shape, "
-                  "deny_code_is_response_status). Model = ProxyAuth (parse_http_basic_auth, validators any/single/htpasswd-table, "
+                  "deny_code_is_response_status), and fail-closedness under a validator that RAISES (raising_validator_fails_closed, "
+                  "raising_validator_fails_closed_socks, accepts_iff_check_ok: the validator is modelled as returning an Except; "
+                  "bcrypt.checkpw on > 72 bytes and an injected raising validator are driven end to end). Model = ProxyAuth (parse_http_basic_auth, validators any/single/htpasswd-table, "
                   "requestheaders / http_connect / socks5_auth, authenticated set, make_auth_required_response) composed with the "
                   "per-connection path machine. Tied end-to-end: real mode layers + HttpLayer + real ProxyAuth addon in world.py "
                   "(per step: status AND the exact 401/407 page + challenge field predicted by the model, request heads reaching "
@@ -420,6 +464,8 @@ class Check(PropertyCheck):
     # ------------------------------------------------------------------ generator
     USERS = ["user", "u", "alice", "Ünï", "a b", "", "x#y"]
     PASSES = ["pass", "p", "pa:ss", ":lead", "trail:", "a:b:c", "", "pässwörd", "sp ace", "𝄞", "::"]
+    # lengths around bcrypt's 72-byte limit (bcrypt.checkpw raises above it), NUL bytes
+    LONG = ["x", "L" * 71, "M" * 72, "N" * 73, "é" * 36 + "z", "W" * 200, "a\x00b", "\x00"]
 
     def gen_validator(self, rng):
         k = rng.weighted([(2, "any"), (4, "single"), (4, "ht"), (1, "none")])
@@ -433,11 +479,19 @@ class Check(PropertyCheck):
         for _ in range(n):
             u = rng.pick([u for u in self.USERS if u and u.strip() == u and not u.startswith("#")])
             p = rng.pick(self.PASSES)
-            h = ht_hash(p)
+            h = bcrypt_hash(rng, p) if rng.chance(0.45) else ht_hash(p)
             if rng.chance(0.15): h += ":ignored-extra"
             entries.append([u, h])
             plain = [(eu, ep) for eu, ep in plain if eu != u] + [(u, p)]
         return {"k": "ht", "entries": entries, "plain": [list(x) for x in plain]}
+
+    def add_fault(self, rng, val):
+        """with some probability the validator raises on the good pair and/or on a wrong one"""
+        if val["k"] == "none" or not rng.chance(0.2): return val
+        u, p = self.good_pair(rng, val)
+        val = dict(val)
+        val["raise_on"] = [[u, p]] if rng.chance(0.6) else [[u, p + "x"], [u, rng.pick(self.LONG)]]
+        return val
 
     def good_pair(self, rng, val):
         if val["k"] == "single": return val["u"], val["p"]
@@ -451,7 +505,8 @@ class Check(PropertyCheck):
                              (2, "case"), (2, "ws"), (1, "nonascii"), (1, "empty"), (1, "raw"), (1, "onetoken"), (1, "three")])
         b64 = lambda s: base64.b64encode(s.encode("utf-8"))
         if kind == "valid": v = b"Basic " + b64(f"{u}:{p}")
-        elif kind == "wrong": v = b"Basic " + b64(f"{u}:{p}x" if rng.chance(0.5) else f"x{u}:{p}")
+        elif kind == "wrong":
+            v = b"Basic " + b64(rng.pick([f"{u}:{p}x", f"x{u}:{p}", f"{u}:{rng.pick(self.LONG)}", f"{u}:{rng.pick(self.LONG)}"]))
         elif kind == "colons": v = b"Basic " + b64(f"{u}:{rng.pick(['pa:ss', 'a:b:c', ':', 'x:'])}")
         elif kind == "nocolon": v = b"Basic " + b64(u + p)
         elif kind == "badb64":
@@ -483,7 +538,7 @@ class Check(PropertyCheck):
         return hs
 
     def gen_conn_case(self, rng, tier):
-        val = self.gen_validator(rng)
+        val = self.add_fault(rng, self.gen_validator(rng))
         nconn = 1 if rng.chance(0.6) else 2
         conns = [{"mode": rng.weighted([(4, "regular"), (2, "upstream"), (3, "reverse"), (1, "transparent"), (3, "socks5")])}
                  for _ in range(nconn)]
@@ -509,7 +564,7 @@ class Check(PropertyCheck):
                     r = rng.random()
                     if r < 0.55: ub, pb = u.encode(), p.encode()
                     elif r < 0.75: ub, pb = u.encode(), (p + "x").encode()
-                    elif r < 0.9: ub, pb = u.encode(), rng.pick([b"pa:ss", b"", b"\xff", b":"])
+                    elif r < 0.9: ub, pb = u.encode(), rng.pick([b"pa:ss", b"", b"\xff", b":"] + [x.encode() for x in self.LONG])
                     else: ub, pb = rng.bytes_(rng.randint(0, 4)), rng.bytes_(rng.randint(0, 4))
                     q.append({"c": cid, "k": "sa", "u_hex": hx(ub[:255]), "p_hex": hx(pb[:255])})
                 q.append({"c": cid, "k": "sc"})
@@ -535,7 +590,7 @@ class Check(PropertyCheck):
         return case
 
     def gen_hook_case(self, rng):
-        val = self.gen_validator(rng)
+        val = self.add_fault(rng, self.gen_validator(rng))
         nconn = rng.randint(1, 2)
         conns = [{"mode": rng.pick(list(MODES))} for _ in range(nconn)]
         steps = []
@@ -621,7 +676,10 @@ class Check(PropertyCheck):
         if case.get("upauth"):
             ua = upstream_auth.UpstreamAuth(); addons.append(ua)
         with taddons.context(*addons) as tctx:
+            quiet_logging()
             tctx.configure(pa, proxyauth=proxyauth_option(case["val"]))
+            if case["val"].get("raise_on") and pa.validator:
+                pa.validator = RaisingValidator(pa.validator, case["val"]["raise_on"])
             if ua: tctx.configure(ua, upstream_auth=case["upauth"])
             for k, v in (case.get("opts") or {}).items():
                 setattr(tctx.options, k, v)
@@ -640,7 +698,8 @@ class Check(PropertyCheck):
             cl = clients[st["c"]]
             if st["k"] == "sa":
                 d = modes.Socks5AuthData(cl, lib_sock_decode(unhx(st["u_hex"])), lib_sock_decode(unhx(st["p_hex"])))
-                pa.socks5_auth(d)
+                try: pa.socks5_auth(d)
+                except Exception: pass           # addonmanager.safecall: an exception in a hook is logged, the hook is over
                 outs.append("SA0" if d.valid else "SA1")
                 continue
             f = tflow.tflow(client_conn=cl)
@@ -648,9 +707,11 @@ class Check(PropertyCheck):
             if st.get("replay"): f.is_replay = "request"
             if st["m"] == "CONNECT":
                 f.request.method = "CONNECT"
-                pa.http_connect(f)
+                try: pa.http_connect(f)
+                except Exception: pass           # (safecall, as above)
             else:
-                pa.requestheaders(f)
+                try: pa.requestheaders(f)
+                except Exception: pass
             if f.response is None:
                 outs.append("F:" + self.render_fields([(k.lower(), v) for k, v in f.request.headers.fields]))
             else:
@@ -888,15 +949,19 @@ class Check(PropertyCheck):
             for u, h in val["entries"]:
                 h0 = h.split(":", 1)[0]
                 for pw in pws:
-                    ent["h:" + cps(h0) + ":" + cps(pw)] = "1" if ht_check(h0, pw) else "0"
+                    r = ht_check(h0, pw)
+                    ent["h:" + cps(h0) + ":" + cps(pw)] = "!" if r is None else "1" if r else "0"
         return ";".join(k + ":" + v for k, v in sorted(ent.items())) or "-"
 
     @staticmethod
     def val_field(val):
         k = val["k"]
-        if k in ("none", "any"): return k
-        if k == "single": return f"single:{cps(val['u'])}:{cps(val['p'])}"
-        return "table:" + ",".join(cps(u) + "=" + cps(h) for u, h in val["entries"])
+        if k in ("none", "any"): base = k
+        elif k == "single": base = f"single:{cps(val['u'])}:{cps(val['p'])}"
+        else: base = "table:" + ",".join(cps(u) + "=" + cps(h) for u, h in val["entries"])
+        if val.get("raise_on"):
+            base += ";raise;" + ",".join(cps(u) + "=" + cps(p) for u, p in val["raise_on"])
+        return base
 
     @staticmethod
     def hdr_field(hdrs):
